@@ -26,7 +26,7 @@ GEN = staticmethod(dlms_gen.aidon_case)
 
 
 def plan(tier, seed):
-    return [{"n": N[tier]} for _ in range(16)] + [{"kind": "threads", "rounds": 3 if tier == "quick" else 40}]
+    return [{"n": N[tier]} for _ in range(16)] + [{"kind": "threads", "rounds": 3 if tier == "quick" else 40}] + [{"n": N[tier] // 2, "python_flags": ["-bb"]}]
 
 
 def run(shard, ctx):
